@@ -30,7 +30,8 @@ RULE = ('cases = (structure kind x layout class x covariance dimension x tag typ
 ASSUMPTIONS = ['JSON-schema validity is decided by the jsonschema package (draft 2020-12 validator on the shipped schema), not by TLA+',
                'the order of covariance names inside .names is not significant', 'correlator tags are strings or None (Corr prints its tag as text)']
 
-TAGS = [None, 'a tag', '', 0, 7, 2.5, True, False, [], [1, 'x'], {'a': 1}, {'k': [1, 2, {'z': None}]}]
+TAGPOS = [0]
+TAGS = [None, 'a tag', '', 0, 7, 2.5, True, False, [], [1, 'x'], {'a': 1}, {'k': [1, 2, {'z': None}]}, ['single'], [3], [None], [['nested']], [[]]]
 
 try:
     import jsonschema
@@ -114,7 +115,8 @@ def make_structure(rng, kind):
         o = _obs(rng, lay, covs, scale)
         o.reweighted = rew
         if tag:
-            o.tag = TAGS[int(rng.integers(0, len(TAGS)))]
+            TAGPOS[0] += 1
+            o.tag = TAGS[TAGPOS[0] % len(TAGS)]
         return o
     if kind == 'obs':
         return ob()
